@@ -1531,3 +1531,13 @@ Proof.
   match goal with |- context [deferred ?x orc] => destruct (deferred x orc) end.
   cbn [snd]. destruct (qos =? 2); tauto.
 Qed.
+
+(* ---- small corollaries used as property statements ---- *)
+Lemma quota_bounds c : cfg_ok c -> forall h, hist_ok h ->
+  let s := fst (run c init_st h) in
+  (0 <= s_sendq s <= s_maxsend s)%Z /\ (0 <= s_recvq s <= s_maxrecv s)%Z.
+Proof. intros C h H. pose proof (run_wf c C h init_st H (wf_init c)) as W. split; apply W. Qed.
+
+Lemma direct_first c s pq sq uid now mei pv qf i d q u rc :
+  In (OPkt T_PUBLISH i d q u rc) (snd (out_publish c s pq sq uid now mei pv qf)) -> 0 < q -> d = false /\ u = uid.
+Proof. intros H Q. eapply out_publish_fresh in H; [tauto|exact Q]. Qed.
